@@ -15,6 +15,7 @@ def replay(case):
         shape = [rnd.choice([1, 2, 3]) for _ in range(rank)]; shape[axis] = ln
         bits = 8 * np.dtype(dt).itemsize
         data = np.array([rnd.getrandbits(bits) for _ in range(int(np.prod(shape)))], dtype=dt).reshape(shape)
+        if case.get('heavy'): data = np.full(shape, (1 << bits) - 1, dtype=dt); data.flat[0] = (1 << bits) - 2      # group sums far above 255 / 65535
         try: out = scared.HammingWeight(nb_words=kk, expected_dtype=dt)(data, axis=axis)
         except Exception as e: return dict(reproduced=ln >= kk, detail=repr(e))
         if ln < kk: return dict(reproduced=True, detail='accepted')
@@ -77,6 +78,13 @@ def bounded(seed, tier):
         v = np.array(vals, dtype=dt); got = scared.HammingWeight(expected_dtype=dt)(v); ev += len(vals)
         exp = np.array([pc(x) for x in vals], dtype='uint32')
         if not np.array_equal(got, exp): fails.append(dict(kind='hw', function='scared.models::_fhw%d' % bits, bits=bits, value=int(vals[int(np.nonzero(got != exp)[0][0])])))
+    # large groups of heavy words: the group sum must not be accumulated in the width of one word's weight
+    for dt, k, ln in (('uint8', 32, 64), ('uint8', 64, 130), ('uint16', 16, 33), ('uint32', 8, 16), ('uint64', 4, 9), ('uint8', 300, 600), ('uint64', 1100, 1100)):
+        for rank, axis in ((1, 0), (2, 1), (2, 0)):
+            ev += 1; c = dict(kind='hw_group', rank=rank, axis=axis, k=k, length=ln, dtype=dt, heavy=True)
+            if replay(c)['reproduced']: fails.append(dict(c, function='scared.models::HammingWeight._compute'))
+    for t in range(0):
+        pass
     for t in range(60 if tier == 'quick' else 600):
         rank = rnd.choice([1, 2, 3]); axis = rnd.randrange(rank); k = rnd.choice([1, 2, 3, 4]); ln = rnd.choice([1, 2, 3, 4, 5, 7, 8]); dt = rnd.choice(['uint8', 'uint16', 'uint32', 'uint64']); ev += 1
         r = replay(dict(kind='hw_group', rank=rank, axis=axis, k=k, length=ln, dtype=dt))
@@ -89,7 +97,7 @@ def bounded(seed, tier):
         for b in range(9):
             ev += 1; r = replay(dict(kind='monobit', dtype=dt, bit=b))
             if r['reproduced']: fails.append(dict(kind='monobit', function='scared.models::Monobit._compute', dtype=dt, bit=b))
-    return dict(evaluations=ev, failures=len(fails), failing=fails[:5], exhaustive=False, bound='uint8/uint16 exhaustive; uint32/uint64 per-byte-lane exhaustive + extremes + 2000 random; random shapes/axes/nb_words; Monobit on 8 dtypes x 9 bits; discriminants with NaN on random small arrays')
+    return dict(evaluations=ev, failures=len(fails), failing=fails[:5], exhaustive=False, bound='uint8/uint16 exhaustive; uint32/uint64 per-byte-lane exhaustive + extremes + 2000 random; random shapes/axes/nb_words; heavy all-ones groups of 4..1100 words (sums above 255 / 65535); Monobit on 8 dtypes x 9 bits; discriminants with NaN on random small arrays')
 
 if __name__ == '__main__':
     cmd = sys.argv[1]
